@@ -35,7 +35,21 @@ def perturb(rnd, m, desc, diff):
     if diff == "n":
         d2["n"] = desc["n"] + 1 if desc["n"] else 3
         return d2
+    if diff == "decimal":
+        # the same interval written with a decimal hour and with whole minutes (1,1 h = 66 min): whether the two recurrences
+        # are == is float rounding, but if they are they must hash equally
+        if desc["fmt"] == 1:
+            return None
+        whole, tenths = rnd.randint(0, 30), rnd.choice([1, 2, 3, 4, 6, 7, 8, 9, 5])
+        desc["d"] = {"h": whole + tenths / 10.0}
+        d2["d"] = {"mi": whole * 60 + tenths * 6}
+        return d2
     if diff == "interval":
+        if desc["fmt"] != 1 and recur.is_exact(desc["d"]) and "w" not in desc["d"] and rnd.random() < 0.2:
+            base = dict(desc["d"])
+            base["s"] = base.get("s", 0) + rnd.choice([1e-07, 3e-07, -1e-07])      # intervals a fraction of a microsecond apart are different
+            d2["d"] = base
+            return d2
         if desc["fmt"] == 1:
             from harness.drivers.recur import _same_zone_shift
             d2["s"] = _same_zone_shift(m, desc["s"], rnd.choice([1, 60, 3600]))
@@ -70,6 +84,10 @@ def perturb(rnd, m, desc, diff):
             return None      # month/year stepping from a 24:00 anchor admits two readings (C05): not demanded to agree
         if desc["fmt"] == 1:
             d2["s"] = _hms(respell(rnd, m, desc["s"]))
+            if desc["s"].get("dec"):
+                if d2["s"]["hh"] == 24:
+                    return None
+                d2["s"]["dec"] = desc["s"]["dec"]        # the fraction of the second is part of the instant
         elif recur.is_exact(desc["d"]) and "w" not in desc["d"]:
             d = desc["d"]
             d2["d"] = {"s": d.get("d", 0) * 86400 + d.get("h", 0) * 3600 + d.get("mi", 0) * 60 + d.get("s", 0)}
@@ -120,7 +138,7 @@ def run_case(case, rec, cid):
         d2 = perturb(rnd, m, desc, case["diff"])
         if d2 is None:
             return False
-        exact = desc["fmt"] == 1 or recur.is_exact(desc["d"])
+        exact = (desc["fmt"] == 1 or recur.is_exact(desc["d"])) and case["diff"] != "decimal"
 
         def g():
             r2 = recur.build(d2)
@@ -164,9 +182,9 @@ def expand(job):
     for _ in range(job["n"]):
         sp = gen.spelling(rnd)
         m = MEANING[sp]
-        desc = recur.rand_recurrence(rnd, m, whole_anchor=True, maxn=rnd.choice([1, 3, 5]))
+        desc = recur.rand_recurrence(rnd, m, whole_anchor=True, maxn=rnd.choice([1, 3, 5]), whole_anchor_only=False)
         while recur.known_class(desc) or recur.float_class(desc):
-            desc = recur.rand_recurrence(rnd, m, whole_anchor=True, maxn=rnd.choice([1, 3, 5]))
+            desc = recur.rand_recurrence(rnd, m, whole_anchor=True, maxn=rnd.choice([1, 3, 5]), whole_anchor_only=False)
         desc["a"] = _hms(desc["a"])
         if rnd.random() < 0.12 and desc["fmt"] != 1 and not desc["a"].get("dec"):
             desc["a"] = dict(desc["a"], hh=0, mi=0, ss=0)      # anchors at local midnight (half of them in UTC): they have a 24:00 spelling
@@ -190,7 +208,7 @@ def expand(job):
                 d = gen.neg_dur(d)
             yield {"mode": sp, "rec": desc, "kind": "shift", "d": d, "how": rnd.choice(["add", "radd", "sub"])}
         elif x < 0.85:
-            diff = rnd.choice(["none", "n", "interval", "respell", "start" if desc["fmt"] != 4 else "end"])
+            diff = rnd.choice(["none", "n", "interval", "respell", "start" if desc["fmt"] != 4 else "end", "decimal"])
             yield {"mode": sp, "rec": desc, "kind": "eq", "diff": diff, "seed": rnd.randrange(10 ** 9)}
         else:
             pts_ = [desc["a"]] + ([desc["s"]] if desc["fmt"] == 1 else [])
